@@ -93,11 +93,12 @@ func (l *DBinBlockReader) ReadAsBlockMeta() (*pbbstream.BlockMeta, error) {
 
 func readMessage[T any](reader *DBinBlockReader, decoder func(message []byte) (T, error)) (out T, err error) {
 	message, err := reader.src.ReadMessage()
-	if len(message) > 0 {
+	if err == nil && len(message) > 0 {
 		return decoder(message)
 	}
 
-	if err == io.EOF {
+	// a clean end of file: nothing at all could be read for the next message
+	if err == io.EOF && len(message) == 0 {
 		return out, err
 	}
 
